@@ -33,6 +33,7 @@ type closeRec struct {
 	hasClk bool
 	done   bool // the history is over: a close from now on is the harness's own cleanup
 	closed bool
+	count  int // close notifications received while the history was running
 	cause  string
 	tau    int64
 	when   time.Time
@@ -56,6 +57,9 @@ func causeOf(err error) string {
 func (r *closeRec) notify(err error) {
 	now := time.Now()
 	r.mu.Lock()
+	if !r.done {
+		r.count++
+	}
 	if !r.closed && !r.done {
 		r.closed = true
 		r.cause = causeOf(err)
@@ -68,6 +72,7 @@ func (r *closeRec) notify(err error) {
 func (r *closeRec) fill(o *observation, clk clock) {
 	r.mu.Lock()
 	r.done = true
+	o.Notifications = r.count
 	if r.closed {
 		o.Closed = true
 		o.Cause = r.cause
@@ -124,7 +129,7 @@ func (env *connEnv) accepted(remote string) *nbio.Conn {
 	return nil
 }
 
-var bigPayload = make([]byte, 1<<20)
+var bigPayload = make([]byte, 256<<10)
 var smallPayload = []byte("0123456789")
 
 func runConn(rd *round, env *connEnv, p *plan, phase time.Duration) *observation {
@@ -183,12 +188,18 @@ func runConn(rd *round, env *connEnv, p *plan, phase time.Duration) *observation
 			_ = c.SetWriteDeadline(t)
 			op.Name = fmt.Sprintf("SetWriteDeadline(%s)", dlName(po.Dl))
 			op.Cmds = []string{fmt.Sprintf("swd %d", dl)}
-		case "wsmall", "wbig":
+		case "wsmall", "wvsmall", "wbig":
 			data := smallPayload
 			if po.Op == "wbig" {
 				data = bigPayload
 			}
-			n, werr := c.Write(data)
+			var n int
+			var werr error
+			if po.Op == "wvsmall" {
+				n, werr = c.Writev([][]byte{data[:4], data[4:]})
+			} else {
+				n, werr = c.Write(data)
+			}
 			if werr != nil {
 				if errors.Is(werr, net.ErrClosed) {
 					res = "closed"
@@ -199,7 +210,12 @@ func runConn(rd *round, env *connEnv, p *plan, phase time.Duration) *observation
 				res = fmt.Sprintf("short:%d", n)
 			}
 			op.Name = fmt.Sprintf("Write(%d bytes)", len(data))
+			if po.Op == "wvsmall" {
+				op.Name = fmt.Sprintf("Writev(4+%d bytes)", len(data)-4)
+			}
 		case "drain":
+			_ = cl.(*net.TCPConn).SetReadBuffer(1 << 20)
+			_ = c.SetWriteBuffer(1 << 20)
 			startReader()
 			for i := 0; i < 4000; i++ {
 				_, _, bl, closed := nbio.VerifDeadlineState(c)
@@ -232,7 +248,7 @@ func runConn(rd *round, env *connEnv, p *plan, phase time.Duration) *observation
 					op.Eff = append(op.Eff, effect{Kind: "set", Dir: x, Lo: dl, Hi: dl})
 				}
 			}
-		case "wsmall", "wbig":
+		case "wsmall", "wvsmall", "wbig":
 			full := "0"
 			if backlogBefore == 0 && bl == 0 {
 				full = "1"
@@ -264,9 +280,17 @@ func runConn(rd *round, env *connEnv, p *plan, phase time.Duration) *observation
 // final look, collect the close notification.
 func finish(rd *round, p *plan, o *observation, clk clock, rec *closeRec, isClosed func() bool) {
 	limit := rd.slotUS(p.horizon2()) + int64(rd.margin/time.Microsecond) + int64(rd.unit/time.Microsecond)/4
+	stale := rd.slotUS(p.horizon2()) + int64(rd.unit/time.Microsecond)/2
 	for clk.us() < limit {
 		if isClosed() {
-			break
+			// closed by the user: keep watching until every deadline ever set has passed (a timer that Close did not
+			// cancel would show up as a second close notification)
+			rec.mu.Lock()
+			user := rec.closed && rec.cause == "user"
+			rec.mu.Unlock()
+			if !user || clk.us() >= stale {
+				break
+			}
 		}
 		time.Sleep(2 * time.Millisecond)
 	}
